@@ -464,17 +464,20 @@ def r_C14inst(root):
     e1 = call(rep_fn, p1)
     ga, sa, da = U.own.get("__getattribute__"), U.own.get("__setattr__"), U.own.get("__delattr__")
     if e1 is None and all(callable(x) for x in (ga, sa, da)):
-        o = pyeval.InstObj(U); col = {"name": "n1", "kids": ["k"]}; U.own["_tx_obj_attrs"][id(o)] = col
+        U.own["parent"] = None                      # a class-level default of the user's class (parent: ... = None)
+        # the meta-model (re)binds the per-object storage of a class when it initialises the class: the installed methods must read the class's current storage
+        U.own["_tx_obj_attrs"] = {}
+        o = pyeval.InstObj(U); col = {"name": "n1", "kids": ["k"], "parent": "the container"}; U.own["_tx_obj_attrs"][id(o)] = col
         o2 = pyeval.InstObj(U); o2.own["real"] = "r"               # an object of the class that is not being loaded (created by the user meanwhile)
         def tryc(f, *a):
             try: return ("ret", f(*a))
             except pyeval.Raised as r_: return ("raise", r_.cls)
             except pyeval.Unsupported as u_: raise AnalysisError("instrumented attribute methods: outside the evaluated subset: %s" % u_)
         r1 = tryc(ga, o, "name"); r2 = tryc(ga, o, "__dict__"); r3 = tryc(sa, o, "extra", 5); st3 = col.get("extra"); r4 = tryc(da, o, "extra"); st4 = "extra" in col
-        r5 = tryc(ga, o2, "real"); r6 = tryc(sa, o2, "more", 1); r7 = tryc(ga, o, "missing")
-        okm = r1 == ("ret", "n1") and r2[0] == "ret" and r2[1] is col and r3[0] == "ret" and st3 == 5 and r4[0] == "ret" and not st4 and "extra" not in o.own and r5 == ("ret", "r") and r6[0] == "ret" and o2.own.get("more") == 1 and r7[0] == "raise"
+        r5 = tryc(ga, o2, "real"); r6 = tryc(sa, o2, "more", 1); r7 = tryc(ga, o, "missing"); r8 = tryc(ga, o, "parent"); r9 = tryc(ga, o2, "parent")
+        okm = r8 == ("ret", "the container") and r9 == ("ret", None) and r1 == ("ret", "n1") and r2[0] == "ret" and r2[1] is col and r3[0] == "ret" and st3 == 5 and r4[0] == "ret" and not st4 and "extra" not in o.own and r5 == ("ret", "r") and r6[0] == "ret" and o2.own.get("more") == 1 and r7[0] == "raise"
         rep(okm, "C14.p", "the installed attribute methods read, list, write and delete the attributes collected for an object under construction",
-            "while a model is loading, for an object with the collected attributes {name, kids}: reading name gives %s, __dict__ gives %s, setting / deleting an attribute %s; an object of the class that is not under construction reads %s, and a missing attribute %s; documented: reads and __dict__ answer from the collected attributes (scope providers enumerate obj.__dict__), writes and deletes go to the collected attributes, other objects behave normally, a missing attribute is an AttributeError" % (r1, "the collected attributes" if r2[0] == "ret" and r2[1] is col else r2, "is stored / removed there" if st3 == 5 and not st4 else "is not reflected in the collected attributes", r5, "raises " + r7[1] if r7[0] == "raise" else "gives %r" % (r7[1],)))
+            "while a model is loading (the class's storage re-bound after the methods were installed; the class has a class-level default parent=None), for an object with the collected attributes {name, kids, parent}: reading parent gives %s, name gives %s, __dict__ gives %s, setting / deleting an attribute %s; an object of the class that is not under construction reads %s, and a missing attribute %s; documented: reads and __dict__ answer from the collected attributes (scope providers enumerate obj.__dict__), writes and deletes go to the collected attributes, other objects behave normally, a missing attribute is an AttributeError; a collected attribute wins over a class-level default of the same name" % (r8, r1, "the collected attributes" if r2[0] == "ret" and r2[1] is col else r2, "is stored / removed there" if st3 == 5 and not st4 else "is not reflected in the collected attributes", r5, "raises " + r7[1] if r7[0] == "raise" else "gives %r" % (r7[1],)))
     else: rep(False, "C14.p", "attribute methods installed", "after _replace_user_attr_methods the user class has no callable __getattribute__ / __setattr__ / __delattr__ of the loader (%s)" % (e1 or "missing"))
     call(res_fn, p1)
     # 4. restore of a parser that never replaced
